@@ -7,7 +7,7 @@ import structure
 import tracegen
 
 AST_MODULES = ["targets_dast", "targets_vast"]
-MODULES = ["targets_leaves", "targets_comb", "targets_bisect", "targets_misc", "targets_dist", "targets_params", "targets_planar", "targets_bnaf", "targets_arrcomb", "targets_flows", "targets_masks", "targets_wrappers"]
+MODULES = ["targets_leaves", "targets_comb", "targets_bisect", "targets_misc", "targets_dist", "targets_params", "targets_planar", "targets_bnaf", "targets_arrcomb", "targets_flows", "targets_masks", "targets_wrappers", "targets_triangular"]
 
 def main(repo="/repo", outdir=None):
     here = os.path.dirname(os.path.abspath(__file__))
